@@ -36,7 +36,15 @@ def per_call_signatures(b, outer_sig, first_args=()):
         try:
             callee = b.leaf_obj(t['to'])
             csig = callee_signature(callee, t)
-            e = signatures.forwards(outer_sig, csig, t['num_args'], *t['named_args'],
+            extra_pos, extra_named = 0, ()
+            if b.prog['route'] == 'via_helper' and not t.get('unres'):
+                # the call is APPLY(callee, ...): what it forwards to is the helper forwarding to the callee, one more positional
+                csig = signatures.forwards(signatures.signature(b.g['APPLY']), csig)
+                extra_pos = 1
+            elif b.prog['route'] == 'via_helper_kw' and not t.get('unres'):
+                csig = signatures.forwards(signatures.signature(b.g['APPLYK']), csig)
+                extra_named = ('fn',)
+            e = signatures.forwards(outer_sig, csig, t['num_args'] + extra_pos, *(extra_named + tuple(t['named_args'])),
                                     use_varargs=t['use_varargs'], use_varkwargs=t['use_varkwargs'],
                                     hide_args=t['hide_args'], hide_kwargs=t['hide_kwargs'], partial=t['partial'])
         except (ValueError, TypeError) as exc:
